@@ -61,6 +61,7 @@ class Trace:
         self.tstatus = []
         self.requests = []  # B2
         self.packages = []  # B3
+        self.tx_ends = []  # Transaction.__exit__
         self.effects = []  # execute_* calls
         self.sim_responses = []  # SimulatedOrder.cancel / update results
         self.placements = []  # SimulatedOrder.place
@@ -299,6 +300,7 @@ def attach(tr):
                     "force": bool(params.get("force")),
                     "execute": bool(params.get("execute", True)),
                     "new_price": params.get("new_price"),
+                    "mv": params.get("market_version"),
                     "size_reduction": params.get("size_reduction"),
                     "trade_params": (trade.reset_seconds, trade.place_reset_seconds, trade.pending_orders),
                     "trade_status": trade.status.name,
@@ -357,6 +359,25 @@ def attach(tr):
     _wrap(Transaction, "cancel_order", mk_request("CANCEL"))
     _wrap(Transaction, "update_order", mk_request("UPDATE"))
     _wrap(Transaction, "replace_order", mk_request("REPLACE"))
+
+    def mk_txexit(orig):
+        def __exit__(self, exc_type, exc_val, exc_tb):
+            r = orig(self, exc_type, exc_val, exc_tb)
+            TR.tx_ends.append(
+                {
+                    "seq": TR.nseq(),
+                    "tick": TR.tick,
+                    "tx": id(self),
+                    "pending": (len(self._pending_place), len(self._pending_cancel), len(self._pending_update), len(self._pending_replace)),
+                    "flag": self._pending_orders,
+                    "exc": exc_type.__name__ if exc_type else None,
+                }
+            )
+            return r
+
+        return __exit__
+
+    _wrap(Transaction, "__exit__", mk_txexit)
 
     # ---- packages (B3) -----------------------------------------------------------------
     def mk_pop(orig):
